@@ -95,6 +95,8 @@ def kwargs_menu(name, shape):
         out.append({"workers": 2})                       # keywords of scipy.fft only (the reference's own interface)
         out.append({"overwrite_x": False, "axis": 0})
         out.append({"axis": np.array(0)})                   # the axis as a 0-d integer array
+        out.append({"axis": None})                          # not a valid axis: the reference refuses it
+        out.append({"_dup": ("n", 4, 5)})                   # the same argument positionally AND by keyword: refused
         out.append({"axis": np.int64(-1), "n": np.array(3)})
     else:
         two = name.endswith("2")
@@ -128,6 +130,8 @@ def kwargs_menu(name, shape):
             out.append({"s": 5, "axes": -1})
             out.append({"s": 5})
             out.append({"axes": ()})                         # no axis transformed: the input comes back (its own dtype)
+            out.append({"axes": [np.array(nd - 1), np.int64(0)][:nd]})     # entries of any integer type
+            out.append({"_dup": ("s", (3,), (4,))})
             out.append({"s": (), "axes": ()})
             out.append({"s": tuple([3, 4, 2][:nd]), "axes": tuple(range(nd)), "norm": "ortho", "_positional": "all"})
             out.append({"s": None, "axes": tuple(range(max(0, nd - 2), nd)), "norm": "forward", "_positional": "all"})
@@ -143,7 +147,8 @@ def kwargs_menu(name, shape):
 
 def transformed_axes(name, kw, nd):
     if name in ONE_D:
-        return {kw.get("axis", -1) % nd}
+        ax_ = kw.get("axis", -1)
+        return {int(-1 if ax_ is None else ax_) % nd}
     axes = kw.get("axes")
     if isinstance(axes, int):
         axes = (axes,)
@@ -153,11 +158,14 @@ def transformed_axes(name, kw, nd):
         s = kw.get("s")
         s = (s,) if isinstance(s, int) else s
         return set(range(nd)) if s is None else set(range(nd - len(s), nd))
-    return {a % nd for a in axes}
+    return {int(a) % nd for a in axes}
 
 
 def call(fn, x, kw):
     try:
+        if "_dup" in kw:
+            nm_, pos_, kwv_ = kw["_dup"]
+            return fn(x, pos_, **{nm_: kwv_}), None
         if kw.get("_positional") == "all":
             return fn(x, kw["s"], kw["axes"], kw["norm"]), None
         if kw.get("_positional"):
